@@ -52,6 +52,10 @@ func Chunked(b []byte, mode string) io.Reader {
 		return &sizesReader{b: b, sizes: sizes}
 	}
 	var n int
+	// dataerr:N = reads of N bytes, the LAST of which arrives together with io.EOF (on a read after the first)
+	if _, err := fmt.Sscanf(mode, "dataerr:%d", &n); err == nil && n > 0 {
+		return iotest.DataErrReader(&fixedReader{b: b, n: n})
+	}
 	if _, err := fmt.Sscanf(mode, "split:%d", &n); err == nil {
 		return &splitReader{b: b, at: n}
 	}
